@@ -10,15 +10,38 @@ Open Scope nat_scope.
 Definition ref_acts : list string := ["response:451"; "continue"]%string.
 
 (* ------------------------------------------------------------------ soundness of the boolean checks *)
-Lemma react_ok_sound r : react_ok r = true -> r = Some ref_acts.
+Lemma responses_filter acts : responses acts = responses (filter not_log acts).
 Proof.
-  destruct r as [[|a [|b [|c l]]]|]; cbn; try discriminate.
-  intro H. apply andb_prop in H as [A B]. apply String.eqb_eq in A, B. subst. reflexivity.
+  induction acts as [|a r IH]; [reflexivity|]. cbn [filter]. unfold not_log at 1.
+  destruct (String.eqb a "log") eqn:E; cbn [negb].
+  - apply String.eqb_eq in E. subst a. exact IH.
+  - change (responses (a :: r)) with ((if prefix "response:" a then [t_of (substring 9 3 a)] else []) ++ responses r).
+    change (responses (a :: filter not_log r))
+      with ((if prefix "response:" a then [t_of (substring 9 3 a)] else []) ++ responses (filter not_log r)).
+    rewrite IH. reflexivity.
+Qed.
+
+Lemma mem_continue_filter acts : mem_s "continue" acts = mem_s "continue" (filter not_log acts).
+Proof.
+  unfold mem_s. induction acts as [|a r IH]; [reflexivity|]. cbn [filter existsb]. unfold not_log at 1.
+  destruct (String.eqb a "log") eqn:E; cbn [negb].
+  - apply String.eqb_eq in E. subst a. exact IH.
+  - cbn [existsb]. rewrite IH. reflexivity.
+Qed.
+
+Lemma react_ok_sound r : react_ok r = true ->
+  exists acts, r = Some acts /\ responses acts = [c451] /\ mem_s "continue" acts = true.
+Proof.
+  destruct r as [acts|]; [|discriminate]. unfold react_ok. intro H. exists acts. split; [reflexivity|].
+  rewrite responses_filter, mem_continue_filter.
+  destruct (filter not_log acts) as [|a [|b [|c l]]]; try discriminate.
+  apply andb_prop in H as [A B]. apply String.eqb_eq in A, B. subst. split; reflexivity.
 Qed.
 
 Lemma file_item_not_stream a : file_item a = true -> is_stream a = false.
 Proof.
-  unfold file_item. intro H. apply orb_prop in H as [H|H]; apply String.eqb_eq in H; subst; reflexivity.
+  unfold file_item. intro H. apply orb_prop in H as [H|H]; [apply orb_prop in H as [H|H]|];
+    apply String.eqb_eq in H; subst; reflexivity.
 Qed.
 
 Lemma is_stream_eq a : is_stream a = true -> a = "stream"%string.
@@ -79,7 +102,7 @@ Section Q.
   Lemma ok_parts :
     (forall m, In m ops -> wrapped m = true) /\
     (forall c m fl, assoc_s c conds = Some (m, fl) -> wrapped m = true) /\
-    react = Some ref_acts /\
+    (exists acts, react = Some acts /\ responses acts = [c451] /\ mem_s "continue" acts = true) /\
     (file_first cstor \/ stream_first cstor) /\ (file_first cretr \/ stream_first cretr) /\
     stream_only clist /\ stream_only cmlsd.
   Proof.
@@ -119,7 +142,7 @@ Section Q.
     {| fw_s := fw_s w; fw_fs := fw_fs w; fw_plan := fw_plan w; fw_n := fw_n w; fw_faults := fw_faults w;
        fw_log := fw_log w; fw_codes := fw_codes w ++ [c451]; fw_dst := fw_dst w; fw_sent := fw_sent w;
        fw_info := fw_info w |}.
-  Proof. rewrite Hr. reflexivity. Qed.
+  Proof. pose proof Hr as X. destruct X as (acts & E & R & M). rewrite E. unfold on_raise. rewrite R, M. reflexivity. Qed.
 
   (* some backend call of the command raised (planned fault or genuine error) *)
   Definition raised (w0 w' : fw) : Prop := fw_faults w0 < fw_faults w'.
